@@ -4,6 +4,7 @@ package main
 
 import (
 	"fmt"
+	"os"
 	"regexp"
 	"sort"
 	"strings"
@@ -388,6 +389,13 @@ func (w *World) analyseAtomic(fn *ssa.Function, onStack map[*ssa.Function]bool) 
 	evMap := map[string]*effect{}
 	n := 0
 	event := func(in ssa.Instruction) string {
+		// a call of a local closure is expanded in line (its effects are the enclosing
+		// function's own: `setReward := func(r) { if exec { L.SetFinality(r) } … }`)
+		if c, isC := in.(*ssa.Call); isC {
+			if cal := c.Common().StaticCallee(); cal != nil && cal.Parent() != nil && cal.Blocks != nil {
+				return ""
+			}
+		}
 		if e := w.effectOf(in); e != nil {
 			n++
 			id := fmt.Sprintf("E%d:%s", n, e.What)
@@ -482,6 +490,16 @@ func (w *World) analyseAtomic(fn *ssa.Function, onStack map[*ssa.Function]bool) 
 			}
 		}
 		live := w.pathEffects(fn, p.Events, evMap, failClean)
+		if len(live) > 0 && os.Getenv("RIGOCHECK_DEBUG") == fn.Name() {
+			fmt.Println("DBG A3", p.Term)
+			for _, e := range p.Events {
+				if ef := evMap[e]; ef != nil {
+					fmt.Printf("   %s kind=%s what=%s obj=%s\n", e, ef.Kind, ef.What, ef.Obj)
+				} else {
+					fmt.Println("  ", e)
+				}
+			}
+		}
 		if len(live) > 0 {
 			var ss []string
 			for _, e := range live {
